@@ -114,7 +114,7 @@ func (o *oracles) checkComplete(v *ViewSig, processed []string, what string) {
 				}
 			}
 		}
-		if (q == "sort:ftime" || q == "sort:id") && len(seen) != len(ids) {
+		if (q == "sort:ftime" || q == "sort:id" || q == "PAGED:sort:sport" || q == "PAGED:sort:-cbytes limit:3") && len(seen) != len(ids) {
 			if o.violate("complete", "search-incomplete", fmt.Sprintf("%s: search %q lists %d streams, the view has %d", what, q, len(seen), len(ids))) {
 				return
 			}
